@@ -398,6 +398,10 @@ def check_library(ctx, lib):
         for f in ("from_array", "from_vec"):
             check_fold(ctx, lib, RB, "crate::operator::conj::%s::%s" % (tyname, f), new)
         check_fold(ctx, lib, RB, "crate::operator::conj::%s::from_conjunctions" % tyname, new, inner="%s::from_array" % tyname)
+    # `true` / `false` and goal casts: the goal kinds mean what the templates assume
+    import goalkinds
+
+    goalkinds.check_goal_kinds(ctx, lib, "C14.K5.goal-kinds")
     # the conjunction node constructors keep both goals (a constant-folding slip drops conjuncts)
     streams.check_conj_new(ctx, lib, "C14.K6.conj-new", "crate::operator::conj::Conj::new", "Goal", "Conj")
     streams.check_conj_new(ctx, lib, "C14.K6.conj-new", "crate::operator::conj::InferredConj::new", "G", "InferredConj")
